@@ -218,7 +218,7 @@ type Plan struct {
 	Evidence []proto.EvidenceSpec
 	// PerReplica lets a check alter the recipe for one replica (C06 filters
 	// failed txs, C07 injects CheckTx, C08 crashes); nil = same recipe.
-	PerReplica func(i int, base proto.Recipe) *proto.Recipe
+	PerReplica func(i int, base proto.Recipe, sofar *Block) *proto.Recipe
 }
 
 // Step admits, builds the recipe, applies it on every replica (and the scout)
@@ -240,7 +240,20 @@ func (r *Runner) Step(p Plan) (*Block, error) {
 		}
 		var use *proto.Recipe = &rci
 		if p.PerReplica != nil {
-			if alt := p.PerReplica(i, rci); alt != nil {
+			if i > 0 && blk.Resp[0] != nil {
+				// make the leader's results available to the hook
+				blk.Txs = nil
+				di := 0
+				for _, c := range blk.Resp[0].Calls {
+					if c.M == "DeliverTx" && !c.Injected {
+						if di < len(admitted) {
+							blk.Txs = append(blk.Txs, TxResult{TxSpec: admitted[di], Call: c})
+						}
+						di++
+					}
+				}
+			}
+			if alt := p.PerReplica(i, rci, blk); alt != nil {
 				use = alt
 			}
 		}
@@ -271,6 +284,7 @@ func (r *Runner) Step(p Plan) (*Block, error) {
 		return blk, &ApplyError{Msg: lead.ApplyErr, Block: blk}
 	}
 	di := 0
+	blk.Txs = nil
 	for _, c := range lead.Calls {
 		if c.Injected {
 			continue
